@@ -109,8 +109,8 @@ DateTimeVerdict(s) ==
   ELSE IF ~DateValid(s, 1) \/ Num2(s, 12) > 23 \/ Num2(s, 15) > 59 THEN "reject"
   ELSE IF Num2(s, 18) > 59 THEN "unspec"                                  \* leap second
   ELSE IF ZoneOK(s, ZoneStart(s)) THEN "accept"
-  ELSE IF ZoneShape(s, ZoneStart(s)) THEN "unspec"                        \* numeric offset out of range (+24:00): not probed
-  ELSE IF Len(s) >= ZoneStart(s) /\ s[ZoneStart(s)] \in {122, 44} THEN "unspec"
+  ELSE IF ZoneShape(s, ZoneStart(s)) THEN "reject"                        \* numeric offset out of range (+24:00, +01:60)
+  ELSE IF Len(s) >= ZoneStart(s) /\ s[ZoneStart(s)] = 122 THEN "unspec"   \* lower-case z (a comma before the fraction is not RFC 3339: reject)
   ELSE "reject"
 
 HexC(c) == c \in 48..57 \/ c \in 65..70 \/ c \in 97..102
